@@ -16,6 +16,10 @@ RULE = ("explicit-state BFS over the union alphabet of C03/C04/C05/C09 operation
         "transition is executed on the real objects; a transition is non-trivial when it changed the "
         "canonical state or raised; the oracle compares full observations around each raising call")
 
+# a Section 'l' with a resolved link to /c and an own Property 'p' (int); /a holds a Property 'p' whose text value cannot
+# be converted, so that re-linking 'l' to /a resolves the path but is refused by the merge: the earlier link has to stay
+START_RELINK = [["append", OPS.D0, OPS.S0], ["append", OPS.S0, OPS.P1], ["new_section", "c", OPS.D0, {}],
+                ["new_property", "r", 9, {}], ["new_linked", "l", "/c", OPS.D0], ["append", 11, OPS.P0]]
 BAD_CARD = {"tuple": [2, 1]}
 # three sibling Properties, the middle one depending on the first: objects that refer to one another by name, so that a
 # refused rename / move / removal has other objects it could half-update
@@ -115,7 +119,7 @@ def check(tier):
     ])
     plan = PLANS[tier]
     run.bounds = {"depth": len(plan), "alphabet_per_level": [c["level"] for c in plan]}
-    hist.bfs(run, "checks.c06", [OPS.START_DETACHED, OPS.START_BUILT, START_DEPENDENT], plan)
+    hist.bfs(run, "checks.c06", [OPS.START_DETACHED, OPS.START_BUILT, START_DEPENDENT, START_RELINK], plan)
     n_raise = sum(v for k, v in run.outcomes.items() if not k.endswith(":ok"))
     run.extra["raising_transitions_judged"] = n_raise
     return run.finish(reproduce=lambda f: replay(f))
